@@ -864,6 +864,12 @@ Section INIT.
 End INIT.
 
 (* ------------------------------------------------------------------ the re-key protocol *)
+Lemma under_snoc_self' : forall (p : path) n, under (p ++ [n]) p = false.
+Proof.
+  intros p n. destruct (under (p ++ [n]) p) eqn:E; auto. apply under_spec in E. destruct E as [r E].
+  rewrite <- app_assoc in E. rewrite <- (app_nil_r p) in E at 1. apply app_inv_head in E. discriminate.
+Qed.
+
 Lemma under_sibling_deep : forall (p : path) a b r, a <> b -> under (p ++ [a]) (p ++ b :: r) = false.
 Proof. intros. apply sibling_not_under_deep. auto. Qed.
 
@@ -1214,4 +1220,202 @@ Section REKEY.
         injection Jv as <-. reflexivity.
     Qed.
   End FREE.
+
+  Lemma st1_under_ndir : forall c f1 q, st1 c f1 -> under ndir q = true -> get f1 q = get f0 q.
+  Proof.
+    intros c f1 q H1 Hq. apply (st1_outside c f1 q H1).
+    destruct (under odir q) eqn:E; auto. destruct (under_comparable odir ndir q E Hq) as [U|U].
+    - rewrite <- (app_nil_r ndir) in U. rewrite rk_not_under_odir in U. discriminate.
+    - rewrite <- (app_nil_r odir) in U. rewrite rk_not_under_ndir in U. discriminate.
+  Qed.
+
+  Lemma rk_rename_dir : forall c f1, get f0 odir = Some Dir -> st1 c f1 ->
+    if occupied then exists e, rename f1 odir ndir = FErr e /\ (e = ENOTDIR \/ e = ENOTEMPTY)
+    else exists f2, rename f1 odir ndir = FOk f2 /\ st2 f1 f2.
+  Proof.
+    intros c f1 Hod0 H1.
+    assert (Hod : get f1 odir = Some Dir).
+    { rewrite (st1_same c f1 odir H1); auto; intro E; symmetry in E; revert E; apply path_eqb_neq, path_eqb_snoc_self. }
+    assert (Hpw : get f1 (parent ndir) = Some Dir).
+    { unfold ndir. rewrite parent_snoc. rewrite (st1_outside c f1 ws H1); [apply rk_ws|].
+      unfold odir. apply under_snoc_self'. }
+    assert (Hnd : get f1 ndir = get f0 ndir) by (apply (st1_under_ndir c); auto; apply under_refl).
+    assert (Hch : has_children f1 ndir = has_children f0 ndir).
+    { apply has_children_agree. intros q Hq. apply (st1_under_ndir c); auto. }
+    assert (Eon : path_eqb odir ndir = false) by (apply path_eqb_neq; apply rk_dirs_ne).
+    assert (U1 : under odir ndir = false) by (rewrite <- (app_nil_r ndir); apply rk_not_under_odir).
+    assert (U2 : under ndir odir = false) by (rewrite <- (app_nil_r odir); apply rk_not_under_ndir).
+    destruct occupied eqn:Eo; unfold occupied in Eo.
+    - unfold rename. rewrite Hod, Hpw, Eon, Hnd, U1, U2, Hch.
+      destruct (get f0 ndir) as [[c1|]|] eqn:Gn.
+      + eauto.
+      + unfold isfile in Eo. rewrite Gn, orb_false_r in Eo. rewrite Eo. eauto.
+      + unfold isfile in Eo. rewrite Gn, orb_false_r in Eo. rewrite Eo. eauto.
+    - apply orb_false_iff in Eo. destruct Eo as [Hc Hf].
+      assert (Hn : get f1 ndir = None \/ get f1 ndir = Some Dir).
+      { rewrite Hnd. unfold isfile in Hf. destruct (get f0 ndir) as [[c1|]|]; auto. discriminate. }
+      rewrite <- Hch in Hc.
+      pose proof (rename_dir_ok f1 odir ndir Hod Hpw rk_dirs_ne U1 U2 Hn Hc) as Er.
+      eexists. split; [exact Er|]. intro q. apply (get_rename_dir f1 odir ndir _ q Hod rk_dirs_ne Er).
+  Qed.
+
+  Theorem crash_safe_rekey_lemma : forall atomic g,
+    crashed (op_prog frepr atomic o) f0 g -> CInv frepr o wss f0 g.
+  Proof.
+    intros atomic g H. destruct rk_src as [Hod0 [c [v0 [G [J E]]]]].
+    pose proof (cinv_rk_pre c v0 G J Hod0) as Hpre.
+    unfold op_prog, o, rekey_by_id, with_sp, sp_load in H.
+    replace (ws ++ [old; SPF]) with fname in H by (unfold fname, odir; rewrite <- app_assoc; reflexivity).
+    apply crashed_do_inv in H; [|reflexivity]. destruct H as [->|H]; [exact Hpre|].
+    assert (E0 : exec_res f0 (CRead fname) = (f0, FOk (RData c))) by (unfold exec_res; cbn [exec]; rewrite G; reflexivity).
+    rewrite E0 in H. cbn [fst snd] in H. rewrite J, E, str_eqb_refl in H.
+    unfold rekey in H. fold new in H.
+    assert (En : str_eqb old new = false) by (apply str_eqb_neq; exact Hne).
+    rewrite En in H. cbv zeta in H. fold odir ndir fname bak in H.
+    apply crashed_do_inv in H; [|reflexivity]. destruct H as [->|H]; [exact Hpre|].
+    assert (Hfb : fname <> bak).
+    { apply path_eqb_neq. unfold fname, bak. rewrite path_eqb_snoc. reflexivity. }
+    assert (Hpb : get f0 (parent bak) = Some Dir) by (unfold bak; rewrite parent_snoc; exact Hod0).
+    assert (Hb : get f0 bak = Some Dir \/ get f0 bak <> Some Dir).
+    { destruct (get f0 bak) as [[cb|]|]; auto; right; discriminate. }
+    destruct Hb as [Gb|Gb].
+    { (* the backup name is a directory: the first rename fails, nothing happens *)
+      assert (E1 : exec_res f0 (CRename fname bak) = (f0, FErr EISDIR)).
+      { unfold exec_res. cbn [exec]. unfold rename. rewrite G, Hpb, Gb.
+        apply path_eqb_neq in Hfb. rewrite Hfb. reflexivity. }
+      rewrite E1 in H. cbn [fst snd] in H. apply crashed_raise_inv in H. subst g. exact Hpre. }
+    destruct (rename_file_ok f0 fname bak c G Hpb Hfb Gb) as [f1 [E1 H1]].
+    rewrite E1 in H. cbn [fst snd] in H.
+    assert (S1 : st1 c f1) by exact H1.
+    apply crashed_do_inv in H; [|reflexivity]. destruct H as [->|H]; [apply (cinv_rk_st1 c Hod0 f1 S1)|].
+    pose proof (rk_rename_dir c f1 Hod0 S1) as Hren.
+    destruct occupied eqn:Eo.
+    - (* occupied destination: the directory rename fails, the backup is rolled back *)
+      destruct Hren as [e [Er He]].
+      assert (E2 : exec_res f1 (CRename odir ndir) = (f1, FErr e)) by (unfold exec_res; cbn [exec]; rewrite Er; reflexivity).
+      rewrite E2 in H. cbn [fst snd] in H.
+      apply crashed_do_inv in H; [|reflexivity]. destruct H as [->|H]; [apply (cinv_rk_st1 c Hod0 f1 S1)|].
+      assert (P1 : get f1 bak = Some (File c)) by (rewrite S1, path_eqb_refl; reflexivity).
+      assert (P2 : get f1 (parent fname) = Some Dir) by (unfold fname; rewrite parent_snoc; apply (st1_odir c Hod0 f1 S1)).
+      assert (P3 : get f1 fname <> Some Dir) by (rewrite (st1_fname c f1 S1); discriminate).
+      destruct (rename_file_ok f1 bak fname c P1 P2 (not_eq_sym Hfb) P3) as [f3 [E3 H3]].
+      rewrite E3 in H. cbn [fst snd] in H.
+      assert (S3 : st3 c f3).
+      { intro q. rewrite H3. destruct (path_eqb q fname) eqn:Q1; auto. destruct (path_eqb q bak) eqn:Q2; auto.
+        rewrite S1, Q2, Q1. reflexivity. }
+      assert (Hg : g = f3) by (destruct He as [-> | ->]; cbn in H; apply crashed_raise_inv in H; exact H).
+      subst g. apply (cinv_rk_st3 c v0 G J Hod0 f3 S3).
+    - (* free destination *)
+      destruct Hren as [f2 [Er S2]].
+      assert (E2 : exec_res f1 (CRename odir ndir) = (f2, FOk RUnit)) by (unfold exec_res; cbn [exec]; rewrite Er; reflexivity).
+      rewrite E2 in H. cbn [fst snd] in H.
+      apply crashed_do_inv in H; [|reflexivity]. destruct H as [->|H]; [apply (cinv_rk_st2 c Hod0 Eo f1 f2 S1 S2)|].
+      assert (Gb2 : get f2 (ndir ++ [SPT]) = Some (File c)).
+      { rewrite (st2_new f1 f2 S2). fold bak. rewrite S1, path_eqb_refl. reflexivity. }
+      assert (X4 : exists f4, exec_res f2 (CUnlink (ndir ++ [SPT])) = (f4, FOk RUnit) /\
+                              forall q, get f4 q = if path_eqb q (ndir ++ [SPT]) then None else get f2 q).
+      { unfold exec_res. cbn [exec]. destruct (unlink f2 (ndir ++ [SPT])) as [f4|e4] eqn:Eu.
+        - exists f4. split; auto. intro q. apply (get_unlink _ _ _ q Eu).
+        - unfold unlink in Eu. rewrite Gb2 in Eu. discriminate. }
+      destruct X4 as [f4 [E4 H4]]. rewrite E4 in H. cbn [fst snd] in H.
+      apply (cinv_rk_init c Hod0 Eo f1 f2 S1 S2 f4 g H4).
+      apply (init_crash_states frepr atomic [] w1 w2 wr nsp f4) with (force := false); [| | | |exact H]; fold ws new ndir.
+      + rewrite H4.
+        assert (Ew : path_eqb ws (ndir ++ [SPT]) = false).
+        { apply path_eqb_neq. intro Q. assert (L : length ws = length (ndir ++ [SPT])) by (rewrite <- Q; reflexivity).
+          unfold ndir in L. rewrite !app_length in L. simpl in L. lia. }
+        rewrite Ew. rewrite (st2_out c f1 f2 S1 S2 ws); [apply rk_ws|apply under_snoc_self'|apply under_snoc_self'].
+      + rewrite H4, path_eqb_snoc. assert (Es : str_eqb SPF SPT = false) by reflexivity. rewrite Es.
+        rewrite (st2_new f1 f2 S2). fold fname. apply (st1_fname c f1 S1).
+      + rewrite H4, path_eqb_snoc.
+        assert (Es : str_eqb (TMPPFX ++ [] ++ SPF) SPT = false) by reflexivity. rewrite Es.
+        rewrite (st2_new f1 f2 S2). rewrite (st1_same c f1 _ S1); [exact Hnotmp| |];
+          apply path_eqb_neq; unfold bak, fname; rewrite path_eqb_snoc; reflexivity.
+      + right. rewrite H4, path_eqb_self_snoc. rewrite <- (app_nil_r ndir). rewrite (st2_new f1 f2 S2), app_nil_r.
+        apply (st1_odir c Hod0 f1 S1).
+  Qed.
 End REKEY.
+
+(* ------------------------------------------------------------------ re-key to the same id: nothing happens *)
+Lemma crash_safe_rekey_same : forall frepr wss f0 ws old nsp atomic g,
+  WInv frepr wss f0 -> In ws wss -> In old (job_dirs f0 ws) -> calc_id frepr nsp = old ->
+  crashed (op_prog frepr atomic (KRekey ws old nsp)) f0 g -> g = f0.
+Proof.
+  intros frepr wss f0 ws old nsp atomic g HW Hws Hold Heq H.
+  destruct (winv_job frepr wss f0 ws old HW Hws Hold) as [Hd [c [v [G [J E]]]]].
+  unfold op_prog, rekey_by_id, with_sp, sp_load in H.
+  replace (ws ++ [old; SPF]) with ((ws ++ [old]) ++ [SPF]) in H by (rewrite <- app_assoc; reflexivity).
+  apply crashed_do_inv in H; [|reflexivity]. destruct H as [->|H]; auto.
+  assert (E0 : exec_res f0 (CRead ((ws ++ [old]) ++ [SPF])) = (f0, FOk (RData c))) by (unfold exec_res; cbn [exec]; rewrite G; reflexivity).
+  rewrite E0 in H. cbn [fst snd] in H. rewrite J, E, str_eqb_refl in H.
+  unfold rekey in H. rewrite Heq, str_eqb_refl in H. apply crashed_ret_inv in H. exact H.
+Qed.
+
+(* ------------------------------------------------------------------ licence for the correspondence step *)
+Lemma dedupe_In : forall l x, In x (dedupe l) -> In x l.
+Proof.
+  induction l as [|y l IH]; intros x H; simpl in *; auto.
+  destruct (dedupe l) as [|z r] eqn:E.
+  - destruct H as [<-|[]]. auto.
+  - destruct (tree_match y z).
+    + right. apply IH. exact H.
+    + destruct H as [<-|H]; auto.
+Qed.
+
+Lemma all2_Forall2 : forall X Y (p : X -> Y -> bool) a b, all2 p a b = true -> Forall2 (fun x y => p x y = true) a b.
+Proof.
+  induction a as [|x a IH]; intros [|y b] H; simpl in H; try discriminate; constructor.
+  - apply andb_true_iff in H. tauto.
+  - apply IH. apply andb_true_iff in H. tauto.
+Qed.
+
+(* If every crash state of the model satisfies CInv (the crash_safe theorems) and the implementation's
+   observations of a PCrash case agree with the model (no mismatch), then the implementation's crash
+   states are, one by one, observationally equal to model states that satisfy CInv. *)
+Theorem model_holds_crash : forall c wss,
+  (forall g, crash_states (prog_of c) (k_pre c) g -> CInv (frepr_of c) (k_op c) wss (k_pre c) g) ->
+  mismatch_C11 c = false ->
+  forall out sts, k_probe c = PCrash out sts ->
+  Forall2 (fun m ob => fobs_match (frepr_of c) (k_wss c) m ob = true /\ CInv (frepr_of c) (k_op c) wss (k_pre c) m)
+          (model_crash_states c) sts.
+Proof.
+  intros c wss Hsafe Hm out sts Hp. unfold mismatch_C11 in Hm. rewrite Hp in Hm.
+  apply negb_false_iff in Hm. apply andb_true_iff in Hm. destruct Hm as [_ Hm].
+  apply all2_Forall2 in Hm.
+  assert (Hall : forall m, In m (model_crash_states c) -> CInv (frepr_of c) (k_op c) wss (k_pre c) m).
+  { intros m Hin. apply Hsafe. unfold model_crash_states in Hin. apply dedupe_In in Hin.
+    apply crash_list_sound. exact Hin. }
+  revert Hall Hm. generalize (model_crash_states c) as ms. intros ms Hall Hm. revert Hall.
+  induction Hm as [|m ob ms obs Hmo Hrest IH]; intro Hall; constructor.
+  - split; auto. apply Hall. left. reflexivity.
+  - apply IH; try (intros m' Hin; apply Hall; right; exact Hin).
+Qed.
+
+(* ------------------------------------------------------------------ Project.clone: a fault leaves an undetectable partial copy *)
+Definition cw_repr : fl -> str := fun _ => [].
+Definition cw_sp : json := JObj [([97%N], JInt 1)].
+Definition cw_id : str := Eval vm_compute in calc_id cw_repr cw_sp.
+Definition cw_a : path := [[112%N; 65%N]; WS].
+Definition cw_b : path := [[112%N; 66%N]; WS].
+Definition cw_data : str := [100%N; 97%N; 116%N; 97%N].
+Definition cw_bytes : content := mkContent [104%N; 101%N; 108%N; 108%N; 111%N] None.
+Definition cw_f0 : fs :=
+  [ ([[112%N; 65%N]], Dir); (cw_a, Dir); (cw_a ++ [cw_id], Dir);
+    (cw_a ++ [cw_id; cw_data], File cw_bytes);
+    (cw_a ++ [cw_id; SPF], File (jcontent cw_repr cw_sp));
+    ([[112%N; 66%N]], Dir); (cw_b, Dir) ].
+Definition cw_op : cop := KClone cw_a cw_id cw_b.
+Definition cw_sig : csig := {| sg_kind := SgWrite; sg_p := cw_b ++ [cw_id; cw_data]; sg_q := [] |}.
+
+Lemma clone_fault_witness :
+  match find_occ cw_sig 0 (map fst (trace (op_prog cw_repr true cw_op) cw_f0)) 0 with
+  | None => False
+  | Some k =>
+      let '(g, out) := run_fault (single k EIO) 0 (op_prog cw_repr true cw_op) cw_f0 in
+      (exists e, out = inr e)                                        (* the caller sees an exception ...          *)
+      /\ validates cw_repr g cw_b cw_id = true                       (* ... the new directory validates ...        *)
+      /\ check_report cw_repr g cw_b = Some []                       (* ... check() reports nothing ...            *)
+      /\ holds_file g (cw_b ++ [cw_id]) [cw_data] cw_bytes = false   (* ... but the data file is not there intact  *)
+      /\ exists_ g (cw_b ++ [cw_id]) = true /\ exists_ cw_f0 (cw_b ++ [cw_id]) = false   (* and it is not the pre-state *)
+  end.
+Proof. vm_compute. repeat split; eauto. Qed.
